@@ -59,7 +59,7 @@ Definition no_voucher : voucher := {| v_type := ""; v_node := 0 |}.
 Definition no_arg : evarg :=
   {| a_int := 0; a_uint := 0; a_err := ""; a_bool := false; a_voucher := no_voucher |}.
 
-Definition ev : Type := EventCode * evarg.
+Notation ev := (EventCode * evarg)%type.
 
 (* ---- field access by the field enumerations of FsmTypes ---- *)
 Definition get_u64 (f : U64Field) (c : chan) : N :=
